@@ -1256,6 +1256,34 @@ func init() {
 					}
 				}
 			}
+			// the '+' term inside a longer alternative beside the bare id alone (rows compared or pruned by string prefix):
+			// X-v1 OR (X-v1+ AND Zlib) against [X-v2, Zlib]
+			if rng.Intn(scale(3, 1)) == 0 && a != "Zlib" && b != "Zlib" && implMatch("Zlib", b) == 0 {
+				cands := []string{a}
+				for _, x := range sameFamilyIDs(a) {
+					if x != a && strings.HasPrefix(x, a) && !strings.HasSuffix(x, "+") {
+						cands = append(cands, x)
+					}
+				}
+				for _, a2 := range cands {
+					if !implValid(a2 + "+") {
+						continue
+					}
+					wantC := implMatch(a, b) == 1 || implMatch(a2+"+", b) == 1
+					for _, e := range []string{a + " OR (" + a2 + "+ AND Zlib)", "(Zlib AND " + a2 + "+) OR " + a, a + " OR (" + a2 + "-or-later AND Zlib)"} {
+						if !implValid(e) {
+							continue
+						}
+						r := implSat(e, []string{b, "Zlib"})
+						res.Evaluations++
+						count("plus_inside_longer_alternative")
+						if r.err != nil || r.panicv != nil || r.ok != wantC {
+							fail(failure{Stream: "oracle", What: "the '+' term inside a longer alternative beside the bare id: " + what, Case: &kase{Expr: e, ExprHex: hx(e), Allowed: []string{b, "Zlib"}}, Impl: r.String(), Expected: fmt.Sprint(wantC)})
+							break
+						}
+					}
+				}
+			}
 			// '+' on the other side / both sides
 			if m2 := implMatch(b+"+", a); m2 >= 0 {
 				_, va := versionOf(a)
@@ -1354,6 +1382,27 @@ func init() {
 					ms = ms[:scale(6, 60)]
 				}
 				for _, l := range look {
+					// the look-alike as a literal member of an AND group beside a family member that only an earlier `X-v+`
+					// entry reaches (a scan of the sorted list that resumes at the last literal hit)
+					for j := 0; j < 3 && len(ms) > 1 && implValid(l); j++ {
+						m0, m1 := pick(ms), pick(ms)
+						_, v0 := versionOf(m0)
+						_, v1 := versionOf(m1)
+						if !v0.ok || !v1.ok || strings.HasSuffix(m0, "-or-later") || strings.HasSuffix(m1, "-or-later") || !implValid(m0+"+") {
+							continue
+						}
+						wantA := cmpVersion(v0, v1) <= 0
+						for _, lst := range [][]string{{m0 + "+", l}, {l, m0 + "+"}, {l, "MIT", m0 + "+"}} {
+							for _, e := range []string{l + " AND " + m1, m1 + " AND " + l, "(" + l + " AND " + m1 + ") OR ISC"} {
+								r := implSat(e, lst)
+								res.Evaluations++
+								count("lookalike_in_and_group")
+								if r.err != nil || r.panicv != nil || r.ok != wantA {
+									fail(failure{Stream: "oracle", What: "an AND group of a look-alike id (allowed literally) and a family member reached only by an earlier 'X+' entry", Case: &kase{Expr: e, ExprHex: hx(e), Allowed: lst}, Impl: r.String(), Expected: fmt.Sprint(wantA)})
+								}
+							}
+						}
+					}
 					for _, m := range ms {
 						for _, pr := range [][2]string{{l, m}, {l + "+", m}, {l, m + "+"}, {l + "+", m + "+"}, {m, l}, {m + "+", l}, {m, l + "+"}, {m + "+", l + "+"}} {
 							if !implValid(pr[0]) || !implValid(pr[1]) {
